@@ -262,7 +262,7 @@ pub fn inject(op: &OpDef, w: &mut Wallet, fx: &Fixture, pre: &db::Snapshot, m: &
 
 fn tier_ops(tier: Tier) -> Vec<&'static str> {
     match tier {
-        Tier::Quick => vec!["scan1@mid", "tip@fresh", "truncate@mid", "lock@mid", "create_account@fresh", "sapling_roots@fresh", "orchard_roots@fresh", "next_address@mid", "tip_beyond@mid", "mig_replace@none", "mig_supersede@live_locked", "mig_update_tx_mined@live"],
+        Tier::Quick => vec!["scan1@mid", "tip@fresh", "truncate@mid", "lock@mid", "create_account@fresh", "sapling_roots@fresh", "orchard_roots@fresh", "next_address@mid", "tip_beyond@mid", "mig_replace@none", "mig_supersede@live_locked", "mig_update_tx_mined@live", "lock_conflict@locked"],
         Tier::Thorough => vec![],
     }
 }
@@ -295,6 +295,9 @@ pub fn replay(kind: &str, case: &Value) -> Result<(), String> {
     let mut w = db::new_wallet(&fx.u, 4, false);
     let pre = &fx.pres[op.pre];
     let m = measure(op, &mut w, &fx, pre);
+    if k == 0 {
+        return if !m.ok && m.pre_exact != m.post_exact { Err(format!("{} returned {} without any injected fault, but the database changed", op.name, m.result)) } else { Ok(()) };
+    }
     inject(op, &mut w, &fx, pre, &m, class, k).map(|_| ())
 }
 
@@ -309,7 +312,7 @@ pub fn run(args: &Args) -> i32 {
     run.assume("trusted base: SQLite's atomic commit / rollback and snapshot isolation; torn pages and fsync loss inside a commit are not modelled");
     run.assume("a failing ROLLBACK statement is not injected; random identifiers (account UUIDs, address check times) are masked when comparing a retry with an uninterrupted run");
     let t0 = Instant::now();
-    let wall_cap = args.tier.pick(33.0, 780.0);
+    let wall_cap = args.tier.pick(27.0, 780.0);
     let fx = Fixture::build();
     let wanted = tier_ops(args.tier);
     let ops: Vec<&OpDef> = fx.ops.iter().filter(|o| wanted.is_empty() || wanted.contains(&o.name.as_str())).collect();
@@ -321,6 +324,15 @@ pub fn run(args: &Args) -> i32 {
         table.push(json!({"op": op.name, "pre": fx.pre_names[op.pre], "vm_steps": m.steps, "prepare_callbacks": m.prepares, "commits": m.commits, "uninterrupted": m.result.chars().take(80).collect::<String>(), "changes_db": m.pre_exact != m.post_exact}));
         if m.commits > 1 {
             run.outcome("multi-commit-operation");
+        }
+        // An operation that reports failure without any injected fault (a refusal, e.g. a lock
+        // conflict in the middle of a batch) must leave the database exactly as it was.
+        if !m.ok {
+            if m.pre_exact != m.post_exact {
+                run.fail("fault", format!("{}:refusal-changed-db", op.name), format!("{} returned {} without any injected fault, but the database changed", op.name, m.result), json!({"op": op.name, "class": "Commit", "k": 0}));
+            } else {
+                run.outcome("refusal:database-unchanged");
+            }
         }
         for k in 1..=m.commits {
             items.push((i, Class::Commit, k));
@@ -407,7 +419,7 @@ pub fn run(args: &Args) -> i32 {
             &jobs,
             || (),
             |_, (i, wal, x, class)| {
-                if t0.elapsed().as_secs_f64() > wall_cap + args.tier.pick(14.0, 100.0) {
+                if t0.elapsed().as_secs_f64() > wall_cap + args.tier.pick(9.0, 100.0) {
                     skipped.fetch_add(1, Ordering::Relaxed);
                     return;
                 }
@@ -468,7 +480,7 @@ pub fn run(args: &Args) -> i32 {
                 &mjobs,
                 || (),
                 |_, (i, wr, wal, k)| {
-                    if t0.elapsed().as_secs_f64() > wall_cap + args.tier.pick(18.0, 160.0) {
+                    if t0.elapsed().as_secs_f64() > wall_cap + args.tier.pick(14.0, 160.0) {
                         skipped.fetch_add(1, Ordering::Relaxed);
                         return;
                     }
